@@ -35,9 +35,9 @@ SHARD_TIMEOUT = {"quick": 150, "thorough": 3000}
 def shards(tier, seed):
     out = []
     for i in range(8 if tier == "quick" else 16):
-        out.append({"kind": "programs", "spec": "popen", "n": 60 if tier == "quick" else 900})
+        out.append({"kind": "programs", "spec": "popen", "n": 60 if tier == "quick" else 12000})
     for sp in ("socket", "via", "python"):
-        out.append({"kind": "programs", "spec": sp, "n": 45 if tier == "quick" else 600})
+        out.append({"kind": "programs", "spec": sp, "n": 45 if tier == "quick" else 6000})
     out.append({"kind": "purity"})
     return out
 
@@ -382,7 +382,7 @@ def run_purity(spec):
             f.write(SHAPES_SRC)
         importlib.invalidate_caches()
         mod = importlib.import_module("verif_c06_shapes")
-        reps = 2 if spec["tier"] == "quick" else 20
+        reps = 2 if spec["tier"] == "quick" else 200
         for rep in range(reps):
             for key, (want, kwargs) in SHAPES.items():
                 name = key.split("#")[0]
